@@ -1085,6 +1085,24 @@ impl<E: Effect> Executor<E> {
         self.builtin_param_compatibility = update.builtin_param_compatibility;
     }
 
+    /// Verification hook: the run-time type-test tables as this executor currently holds them
+    /// (IsType, receive-source functions, receive-source builtins).
+    #[cfg(quiver_verif)]
+    #[allow(clippy::type_complexity)]
+    pub fn verif_compatibility_tables(
+        &self,
+    ) -> (
+        &[HashSet<ConcreteType>],
+        &[HashSet<ConcreteType>],
+        &[HashSet<ConcreteType>],
+    ) {
+        (
+            &self.type_compatibility,
+            &self.function_param_compatibility,
+            &self.builtin_param_compatibility,
+        )
+    }
+
     /// Execute up to max_units instruction units for a single process.
     /// Returns (did_work, optional_action) where did_work indicates if any instructions were executed.
     pub fn step(&mut self, max_units: usize, current_time_ms: u64) -> (bool, Option<Action<E>>) {
